@@ -1,0 +1,24 @@
+//go:build verif
+
+package dhcp
+
+// cleanupGapForVerif, when set, runs inside cleanupExpiredLeases after the read-locked scan
+// has collected the expired MACs and before the write lock is taken: exactly where another
+// goroutine's packet handler can run in production. No lock is held at that point.
+var cleanupGapForVerif = map[*Server]func(){}
+
+func (s *Server) verifCleanupGap() {
+	if f := cleanupGapForVerif[s]; f != nil {
+		f()
+	}
+}
+
+// SetCleanupGapForVerif installs (or, with nil, removes) the function run in that window.
+// Not safe for concurrent use with cleanupExpiredLeases: harnesses are single-threaded.
+func (s *Server) SetCleanupGapForVerif(f func()) {
+	if f == nil {
+		delete(cleanupGapForVerif, s)
+		return
+	}
+	cleanupGapForVerif[s] = f
+}
